@@ -23,12 +23,17 @@ LEAN_TARGETS = ['Nitime.Props.C15']
 RULE = ('inputs: units s/ms/us x intervals {whole, decimal, known re-quantising (0.81327 s, 2.3 ms, 1.7 us ...), random} x '
         'non-zero t0 x 1-/2-/3-d data where the analyzer admits it; every TimeSeries-valued analyzer output + spectral/'
         'coherence/correlation/SNR/Granger/event-related array outputs; generated NIfTI volumes (single/multiple files, '
-        'coordinate arrays and ROI lists, TR number/None/time object, normalize/average/filter); distinct = distinct protocol '
-        'line; non-trivial = t0 != 0 or unit != s or re-quantising interval')
+        'coordinate arrays and ROI lists, TR number/None/time object, both normalisations x average x all four filter methods, '
+        'refused options, verbose); series LENGTHS stratified in every generator (primes / 2*prime / large non-smooth 301, 999, '
+        '1021 / 2-3-5-smooth / tiny-odd / other composites); HISTORIES of reads and in-place modifications on the same files '
+        '(whole -> modify -> ROI / whole / multi-file; two live series; np.shares_memory); long intervals 2^40..2^50 ps; '
+        'distinct = distinct protocol line; non-trivial = t0 != 0 or unit != s or re-quantising interval')
 ASSUMPTIONS = ['numpy/scipy routines called by the analyzers are taken as the algorithm layer (data fidelity is judged against direct calls of that layer)',
                'nibabel get_fdata() is the reference content of a NIfTI file',
                'picosecond magnitudes stay below 2^53 (intervals < 2.5 h) so int64->float64 conversions in the constructor are exact']
-TRUSTED_EXTRA = ['harness/translate_c15.py (AST extraction of TimeSeries(...) call sites into Generated/SeriesCalls.lean)',
+TRUSTED_EXTRA = ['harness/translate_c15.py (AST extraction of TimeSeries(...) call sites into Generated/SeriesCalls.lean; of get_fdata() sites, module state '
+                 'and decorators of nitime/fmri/io.py into Generated/ReaderLoads.lean; of FFT-type calls into Generated/TransformCalls.lean)',
+                 'nibabel: load() returns a new image object per call and an image hands out the array it cached (the two facts the heap model of the reader encodes)',
                  'data fidelity of analyzers (output = algorithm(input.data, Fs)) is checked per run by the python oracle, not proved',
                  'numpy fancy indexing / np.concatenate / nibabel modelled by their documented semantics (selectVoxels, concatData)']
 
@@ -183,6 +188,39 @@ def run_output(name, getter, spec):
         return 'err ' + common.err_kind(e), a_in, None, None, T
 
 
+# series lengths, STRATIFIED (the k-th input of every output takes the k-th stratum, so the quick tier meets all of
+# them for every analyzer output): primes / 2*prime / large non-smooth (next_fast_len(n) far from n) / 2-3-5-smooth
+# (the only kind the repo's tests and examples use) / tiny-or-odd / other non-smooth composites
+LEN_PRIME = [37, 41, 43, 47, 53, 59, 61, 67, 71, 73, 79, 83, 89, 97, 101, 103, 107, 109, 113, 127]
+LEN_2P = [46, 58, 62, 74, 82, 86, 94, 106, 118, 122]
+LEN_BIG = [301, 999, 1021, 509, 514, 343, 667]
+LEN_SMOOTH = [48, 64, 80]
+LEN_TINY = [1, 2, 3, 5, 7, 9, 11, 13, 17, 19, 23]
+LEN_COMP = [49, 51, 57, 63, 69, 77, 87, 91, 93, 99, 111, 119]
+# smallest length an analyzer's own algorithm admits with the parameters used here (filtfilt pad length, wavelet
+# support, event positions): below it the analyzer raises / is outside its documented domain
+MIN_LEN = {'FilterAnalyzer': 41, 'MorletWaveletAnalyzer': 41, 'EventRelatedAnalyzer': 37, 'CorrelationAnalyzer': 2,
+           'NormalizationAnalyzer': 2}
+
+
+def smooth235(n):
+    for p in (2, 3, 5):
+        while n % p == 0:
+            n //= p
+    return n == 1
+
+
+# lengths of the spectral / history / Fs experiments (>= 64 = the default NFFT): smooth, prime, 2*prime, 7*13, 7*11, 7*43
+SPEC_LENS = [96, 97, 94, 91, 101, 77, 127, 122, 301]
+
+
+def pick_len(rng, k, name, lo=None):
+    lo = MIN_LEN.get(name, 1) if lo is None else lo
+    strata = [LEN_PRIME, LEN_2P, LEN_BIG, LEN_SMOOTH, LEN_TINY, LEN_COMP]
+    pool = [n for n in strata[k % 6] if n >= lo] or [n for n in LEN_COMP if n >= lo]
+    return rng.choice(pool)
+
+
 def gen_spec(rng, dims, k, name):
     """k-th input for an output: the first three are fixed hard cases (one per unit: re-quantising
     interval, non-zero t0), the rest random"""
@@ -196,7 +234,7 @@ def gen_spec(rng, dims, k, name):
         iv = rng.choice(BAD_IV[unit]) if c < 0.25 else rng.choice(GOOD_IV[unit]) if c < 0.7 else round(rng.uniform(0.01, 50.0), rng.randint(1, 4))
         t0 = rng.choice(T0S + [0.0]) if rng.random() < 0.8 else round(rng.uniform(-50, 50), 2)
     nd = dims[k % len(dims)] if k < 3 else rng.choice(dims)
-    n = rng.choice([48, 64, 80])
+    n = pick_len(rng, k, name)
     shape = {1: (n,), 2: (rng.choice([2, 3]), n), 3: (2, 2, n)}[nd]
     spec = dict(unit=unit, iv=iv, t0=t0, shape=list(shape), seed=rng.randrange(10**6))
     if name == 'NormalizationAnalyzer':
@@ -229,29 +267,70 @@ def tmpdir():
     return _TMP[0]
 
 
-def write_nifti(spec, idx):
-    import nibabel as nib
+def nifti_data(spec, idx):
+    """the array that goes INTO file idx (kept from before writing: the reference that no reader state can touch)"""
     rs = np.random.RandomState(spec['seed'] + idx)
     X, Y, Z = spec['vol']
     T = spec['lens'][idx]
     if spec['dtype'] == 'int16':
-        data = rs.randint(100, 2000, size=(X, Y, Z, T)).astype(np.int16)
-    else:
-        data = (rs.rand(X, Y, Z, T) * 1000 + 100).astype(np.float32)
-    p = os.path.join(tmpdir(), 'v_%d_%d.nii' % (spec['seed'], idx))
+        return rs.randint(100, 2000, size=(X, Y, Z, T)).astype(np.int16)
+    return (rs.rand(X, Y, Z, T) * 1000 + 100).astype(np.float32)
+
+
+def write_nifti(spec, idx):
+    import nibabel as nib
+    data = nifti_data(spec, idx)
+    p = os.path.join(tmpdir(), 'v_%d_%d%s' % (spec['seed'], idx, spec.get('ext', '.nii')))
     img = nib.Nifti1Image(data, np.eye(4))
     img.header.set_zooms((1, 1, 1, 2.0))
     nib.save(img, p)
     return p
 
 
+# reader options, cycled (21 entries, odd: over the cases every option meets single and multiple files, every ROI
+# form): both normalisations x average x ALL FOUR filter methods, and the two refusals.  (boxcar removes the mean, so
+# 'percent' — a division by the mean — is combined with the mean-preserving filters only.)
+READER_OPTS = ['plain', 'percent', 'zscore', 'filter-fourier', 'filter-boxcar', 'filter-fir', 'filter-iir', 'percent+average',
+               'filter-fir+percent', 'filter-iir+zscore', 'zscore+average', 'average',       # 10, 11: whole volumes (coords=None)
+               'filter-boxcar+zscore+average', 'filter-fourier+percent+average', 'filter-fir+average',
+               'filter-iir+percent+average', 'bad-normalize', 'bad-filter', 'plain', 'filter-fourier+zscore',
+               'filter-boxcar+average']
+assert len(READER_OPTS) == 21
+
+
+def opt_filter(o):
+    """filter method named in an option string (None when there is none)"""
+    for t in o.split('+'):
+        if t.startswith('filter-'):
+            return t[len('filter-'):]
+    return 'bogus' if o == 'bad-filter' else None
+
+
+def opt_normalize(o):
+    return 'percent' if 'percent' in o else 'zscore' if 'zscore' in o else 'bogus' if o == 'bad-normalize' else None
+
+
+def filter_dict(spec):
+    m = opt_filter(spec['opt'])
+    if m is None:
+        return None
+    fs = 10.0**12 / tr_ps(spec['tr'])
+    return dict(lb=0.0537 * fs, ub=0.3071 * fs, method=m, filt_order=8)
+
+
 def gen_nifti_spec(rng, k):
     nf = 1 if k % 2 == 0 else rng.choice([2, 3])
     vol = [rng.choice([2, 3]), rng.choice([3, 4]), rng.choice([2, 3])]
-    lens = [rng.choice([20, 24, 30]) for _ in range(nf)]
+    opt = READER_OPTS[k % len(READER_OPTS)]
+    if 'filter' in opt:
+        lens = [rng.choice([41, 43, 46, 48, 47]) for _ in range(nf)]                 # the filters' own minimum length
+    else:
+        lens = [rng.choice([20, 24, 30, 23, 29, 31, 22, 26, 21]) for _ in range(nf)]     # smooth / prime / 2*prime / 3*7
     # ROI sizes 1,2,3,4 EXPLICITLY (a 3-voxel ROI is a 3x3 coords array) for single and multiple files and for
     # ROI lists: k even/odd = single/multi file, k//2 cycles the size (period 4) and the ROI count (period 6)
     nroi = [1, 1, 2, 1, 3, 0][(k // 2) % 6]      # 0: coords=None, 1: one array, >1: list of arrays
+    if nroi == 0 and 'filter' in opt:
+        nroi = 1                                 # the filters admit at most 2-d data: whole volumes are outside this property
     sizes = [[1, 2, 3, 4][(k // 2 + r) % 4] for r in range(max(nroi, 1))]
     if nroi >= 2:
         sizes[1] = 3
@@ -263,14 +342,9 @@ def gen_nifti_spec(rng, k):
                 break
         coords.append(c)
     tr = rng.choice([None, 2.0, 1.5, 0.5, 0.81327, 'T:2000000000000:ms', 'T:1500000000000:us', 2])
-    opt = rng.choice(['plain', 'plain', 'plain', 'percent', 'zscore', 'average', 'filter-fourier', 'filter-boxcar', 'zscore+average'])
-    if 3 in sizes and nroi > 0 and 'filter' in opt:
-        opt = 'plain'        # the 3x3 case is always judged on its data
-    if nroi == 0 and 'filter' in opt:
-        opt = 'plain'        # the filters admit at most 2-d data (boxcar) — outside this property
     return dict(seed=rng.randrange(10**6), vol=vol, lens=lens, nroi=nroi, coords=coords, tr=tr, opt=opt,
                 dtype=rng.choice(['int16', 'float32']), as_list=(nf > 1) or rng.random() < 0.2,
-                roi_tuple=rng.random() < 0.3)
+                roi_tuple=rng.random() < 0.3, verbose=(k % 5 == 3))
 
 
 def tr_obj(tr):
@@ -291,6 +365,9 @@ def tr_ps(tr):
     return int(x + Fr(1, 2)) if x.denominator != 1 else int(x)     # nearest ps (ties do not occur in the pool)
 
 
+_LAST = {'said': None}
+
+
 def read_nifti(spec):
     """run the real reader; returns (result, files)"""
     from nitime.fmri import io
@@ -306,16 +383,21 @@ def read_nifti(spec):
             coords = tuple(coords)
     kw = {}
     o = spec['opt']
-    if 'percent' in o:
-        kw['normalize'] = 'percent'
-    if 'zscore' in o:
-        kw['normalize'] = 'zscore'
+    if opt_normalize(o) is not None:
+        kw['normalize'] = opt_normalize(o)
     if 'average' in o:
         kw['average'] = True
-    if 'filter' in o:
-        kw['filter'] = dict(lb=0.02, ub=0.15, method=o.split('-')[1])
+    if opt_filter(o) is not None:
+        kw['filter'] = filter_dict(spec)
     if spec['tr'] is not None:
         kw['TR'] = tr_obj(spec['tr'])
+    if spec.get('verbose'):
+        import io as _io, contextlib
+        buf = _io.StringIO()
+        with contextlib.redirect_stdout(buf):
+            R = io.time_series_from_file(arg, coords, verbose=True, **kw)
+        _LAST['said'] = buf.getvalue().count('Reading')
+        return R, files
     return io.time_series_from_file(arg, coords, **kw), files
 
 
@@ -333,6 +415,15 @@ def expected_file_data(spec, files):
             else:
                 d = np.array([[v[c[0][i], c[1][i], c[2][i], t] for t in range(v.shape[3])] for i in range(len(c[0]))], dtype=float)
             o = spec['opt']
+            if opt_filter(o) is not None:
+                # the documented meaning: FilterAnalyzer on the raw voxel series (interval = TR) with the reader's
+                # keyword defaults, the output named by `method` (the analyzer itself is judged against scipy above)
+                fd = filter_dict(spec)
+                T = nt().TimeSeries(d, sampling_interval=tr_obj(spec['tr']) if spec['tr'] is not None else 1.0)
+                F = na().FilterAnalyzer(T, lb=fd['lb'], ub=fd['ub'], boxcar_iterations=2, filt_order=fd['filt_order'], gpass=1, gstop=60,
+                                        iir_ftype='ellip', fir_win='hamming')
+                d = np.asarray({'boxcar': lambda: F.filtered_boxcar, 'fourier': lambda: F.filtered_fourier, 'fir': lambda: F.fir,
+                                'iir': lambda: F.iir}[fd['method']]().data, dtype=float)
             if 'percent' in o:
                 m = d.mean(-1)[..., None]
                 d = (d / m - 1) * 100
@@ -343,6 +434,223 @@ def expected_file_data(spec, files):
             runs.append(d)
         out.append(np.concatenate(runs, -1))
     return out
+
+
+# ------------------------------------------------------------------ HISTORIES of reads on the same files
+# read -> modify the returned series IN PLACE -> read again (same file, other coordinates / options, multi-file):
+# every read must still be the voxel data on disk, no two results may share memory, and a live result may change
+# only through its own modification.
+MUTS = ['fill', 'demean', 'scale', 'negate']
+
+
+def mutate(arr, how):
+    """in-place modification of an ndarray (what callers do with the series they were handed)"""
+    if how == 'fill':
+        arr[...] = -1.0
+    elif how == 'demean':
+        arr -= arr.mean(-1)[..., np.newaxis]
+    elif how == 'scale':
+        arr *= 2.0
+    else:
+        np.negative(arr, out=arr)
+
+
+def rd(files, single=False, coords=None, opt='plain'):
+    return dict(op='read', files=files, single=single, coords=coords, opt=opt)
+
+
+def gen_coords(rng, vol, kk):
+    while True:
+        c = [[rng.randrange(vol[d]) for _ in range(kk)] for d in range(3)]
+        if kk != 3 or c != [list(r) for r in zip(*c)]:
+            return c
+
+
+def gen_readseq_spec(rng, k, options=False):
+    vol = [rng.choice([1, 2]), rng.choice([2, 3]), rng.choice([2, 3])]
+    lens = [rng.choice([5, 7, 11, 6, 13, 8]) for _ in range(3)]
+    C = lambda: gen_coords(rng, vol, rng.choice([1, 2, 3, 4]))      # noqa
+    m = lambda r: dict(op='mut', r=r, how=rng.choice(MUTS))           # noqa
+    f0, f1 = rng.sample([0, 1, 2], 2)
+    pat = k % 6
+    if pat == 0:      # whole volume -> modify -> ROI / whole / concatenations of the same file
+        ops = [rd([f0], True), m(0), rd([f0], True, C()), rd([f0], True), rd([f0, f1], False, C()), rd([f1, f0], False)]
+    elif pat == 1:    # two live whole-volume series of one file; modify one
+        ops = [rd([f0], True), rd([f0], True), m(0), rd([f0], True), m(1), rd([f0], True, C())]
+    elif pat == 2:    # ROI read -> modify -> other ROI, whole
+        ops = [rd([f0], True, C()), m(0), rd([f0], True, C()), rd([f0], True), m(2), rd([f0], True, C())]
+    elif pat == 3:    # concatenated whole volumes -> modify -> single reads of the member files
+        ops = [rd([f0, f1], False), m(0), rd([f1], True), rd([f0], True, C()), m(1), rd([f0, f1], False, C()), rd([f1], True)]
+    elif pat == 4:    # a list of ONE file (concatenate path) and the string form, interleaved
+        ops = [rd([f0], False), m(0), rd([f0], True), m(1), rd([f0], False, C()), rd([f0], False)]
+    else:             # random history
+        ops, nres = [], 0
+        for _ in range(rng.randint(4, 8)):
+            if nres and rng.random() < 0.4:
+                ops.append(m(rng.randrange(nres)))
+            else:
+                fs = [rng.choice([f0, f1])] if rng.random() < 0.6 else rng.sample([0, 1, 2], rng.choice([2, 3]))
+                ops.append(rd(fs, len(fs) == 1 and rng.random() < 0.7, C() if rng.random() < 0.5 else None))
+                nres += 1
+        ops.append(rd([f0], True, C()))
+    if options:       # later reads with normalisation / averaging / ROI lists (judged by the oracle only)
+        for o in ops[2:]:
+            if o['op'] == 'read' and rng.random() < 0.6:
+                o['opt'] = rng.choice(['percent', 'zscore', 'average', 'zscore+average', 'roilist'])
+                if o['opt'] == 'roilist':
+                    o['coords'] = [C(), C()]
+                elif o['coords'] is None and rng.random() < 0.5:
+                    o['coords'] = C()
+    return dict(seed=rng.randrange(10**6), vol=vol, lens=lens, dtype=rng.choice(['int16', 'float32']), ops=ops,
+                tr=rng.choice([None, 2.0, 1.5, 0.81327, 'T:2000000000000:ms']), ext=rng.choice(['.nii', '.nii', '.nii.gz']))
+
+
+def run_readseq(spec, each=None):
+    """run the history on the real reader. -> list of (op, results-so-far) snapshots through `each(i, op, new, results)`;
+    returns the list of result series"""
+    from nitime.fmri import io
+    files = [write_nifti(spec, i) for i in range(len(spec['lens']))]
+    results = []
+    for i, o in enumerate(spec['ops']):
+        new = []
+        if o['op'] == 'mut':
+            mutate(results[o['r']].data, o['how'])
+        else:
+            arg = files[o['files'][0]] if o['single'] else [files[f] for f in o['files']]
+            kw = {}
+            if 'percent' in o['opt']:
+                kw['normalize'] = 'percent'
+            if 'zscore' in o['opt']:
+                kw['normalize'] = 'zscore'
+            if 'average' in o['opt']:
+                kw['average'] = True
+            if spec['tr'] is not None:
+                kw['TR'] = tr_obj(spec['tr'])
+            c = o['coords']
+            coords = None if c is None else [np.array(x) for x in c] if o['opt'] == 'roilist' else np.array(c)
+            R = io.time_series_from_file(arg, coords, **kw)
+            new = list(R) if isinstance(R, (list, tuple)) else [R]
+            results += new
+        if each is not None:
+            each(i, o, new, results)
+    return results
+
+
+def rows_of(a):
+    a = np.asarray(a, dtype=float)
+    return a.reshape(-1, a.shape[-1]) if a.ndim else a.reshape(1, 1)
+
+
+def buf_tok(a):
+    r = rows_of(a)
+    return '%dx%d:%s' % (r.shape[0], r.shape[1], '.'.join(f2x(x) for x in r.reshape(-1)) if r.size else '-')
+
+
+def readseq_case(spec):
+    """correspondence: the history through the Lean heap model (`Reader.report`) vs the real reader — per read the
+    data and the earlier results it shares memory with, at the end the data of every series handed out"""
+    X, Y, Z = spec['vol']
+    toks = []
+    for i in range(len(spec['lens'])):
+        toks += [f2x(float(v)) for v in nifti_data(spec, i).reshape(-1)]
+    ops_m, out = [], []
+
+    def each(i, o, new, results):
+        if o['op'] == 'mut':
+            r = rows_of(results[o['r']].data)
+            ops_m.append('w:%d:%d:%s' % (o['r'], r.shape[1], '.'.join(f2x(x) for x in r.reshape(-1))))
+            out.append('w')
+        else:
+            c = o['coords']
+            ops_m.append('r:%s:%s:%s' % ('+'.join(map(str, o['files'])), 's' if o['single'] else 'l',
+                                         '-' if c is None else '/'.join('.'.join(map(str, x)) for x in c)))
+            k = len(results) - 1
+            al = [j for j in range(k) if np.shares_memory(results[j].data, results[k].data)]
+            out.append(buf_tok(results[k].data) + ':' + ('.'.join(map(str, al)) if al else '-'))
+    try:
+        results = run_readseq(spec, each)
+        impl = 'ok ' + ' '.join(out) + ' | ' + ' '.join(buf_tok(r.data) for r in results)
+    except Exception as e:  # noqa
+        impl = 'err ' + common.err_kind(e)
+        ops_m = ops_m or ['r:0:s:-']
+    line = 'C15 readseq %d %d %d %s %s %s' % (Y, Z, X * Y * Z, ','.join(map(str, spec['lens'])), '.'.join(toks), ';'.join(ops_m))
+    return Case(line, impl, 'time_series_from_file/history', meta={'op': 'readseq', 'spec': spec}, nontrivial=True)
+
+
+def read_kind(o):
+    k = ('roilist' if o['opt'] == 'roilist' else 'whole' if o['coords'] is None else 'coords') + ('-single' if o['single'] else '-multi')
+    return k + ('' if o['opt'] in ('plain', 'roilist') else '/' + o['opt'])
+
+
+def judge_readseq_spec(spec, case=None):
+    """the property on a history, by independent means: the arrays kept from BEFORE the files were written (never
+    touched by any reader state), plain indexing, np.concatenate; a private copy of every result follows the
+    caller's modifications"""
+    truths = [nifti_data(spec, i).astype(np.float64) for i in range(len(spec['lens']))]
+    fails, mirror, seen = [], [], set()
+    meta = {'op': 'readseq', 'spec': spec}
+
+    def fail(key, what):
+        if key not in seen:
+            seen.add(key)
+            fails.append(Failure('time_series_from_file/history/' + key, 'history of reads on the same files, %s [vol=%s lens=%s dtype=%s ops=%s]' % (
+                what, spec['vol'], spec['lens'], spec['dtype'],
+                ' ; '.join(('mut(result %d, %s)' % (o['r'], o['how'])) if o['op'] == 'mut' else read_kind(o) + str(o['files']) for o in spec['ops'])),
+                {'meta': meta}, case=case))
+
+    def want_of(o, c):
+        runs = []
+        for f in o['files']:
+            v = truths[f]
+            d = np.array(v) if c is None else np.array([[v[c[0][i], c[1][i], c[2][i], t] for t in range(v.shape[3])] for i in range(len(c[0]))])
+            if 'percent' in o['opt']:
+                d = (d / d.mean(-1)[..., None] - 1) * 100
+            if 'zscore' in o['opt']:
+                d = (d - d.mean(-1)[..., None]) / d.std(-1)[..., None]
+            if 'average' in o['opt']:
+                d = d.reshape(-1, d.shape[-1]).mean(0)
+            runs.append(d)
+        return np.concatenate(runs, -1)
+
+    def each(i, o, new, results):
+        if o['op'] == 'mut':
+            mutate(mirror[o['r']], o['how'])
+        else:
+            kind = read_kind(o)
+            cs = o['coords'] if o['opt'] == 'roilist' else [o['coords']]
+            if len(new) != len(cs):
+                fail(kind + '/rois', 'step %d returned %d series for %d ROIs' % (i, len(new), len(cs)))
+            for S, c in zip(new, cs):
+                want = want_of(o, c)
+                got = np.asarray(S.data, dtype=float)
+                exact = o['opt'] in ('plain', 'roilist')
+                if got.shape != want.shape or not ((got == want).all() if exact else close(got, want, 1e-9)):
+                    dev = float(np.max(np.abs(got - want))) if got.shape == want.shape else float('nan')
+                    fail(kind + '/data', 'step %d (%s of files %s) does not return the voxel data on disk (max abs deviation %g) after the earlier steps' % (
+                        i, kind, o['files'], dev))
+                a = axis_of(S)
+                if a['dt'] != tr_ps(spec['tr']) or a['n'] != want.shape[-1] or a['t0'] != 0:
+                    fail(kind + '/axis', 'step %d: interval %d ps (TR %d ps), n=%d (expected %d), t0=%d' % (i, a['dt'], tr_ps(spec['tr']), a['n'], want.shape[-1], a['t0']))
+                k = len(mirror)
+                for j in range(k):
+                    if np.shares_memory(results[j].data, S.data):
+                        fail(kind + '/shares-memory', 'step %d: the returned series shares memory with the series returned by read #%d' % (i, j))
+                mirror.append(np.array(want, copy=True))
+        # every series handed out so far changes only through its own modifications
+        for j, (S, w) in enumerate(zip(results, mirror)):
+            got = np.asarray(S.data, dtype=float)
+            if got.shape != w.shape or not close(got, w, 1e-9):
+                fail('live-result-changed', 'after step %d the series returned by read #%d no longer holds what it was given plus its own modifications' % (i, j))
+                mirror[j] = np.array(got, copy=True) if got.shape == w.shape else w
+    try:
+        run_readseq(spec, each)
+    except Exception as e:  # noqa
+        fail('raises', 'raised %r' % e)
+    return fails
+
+
+def judge_readseq(c):
+    return judge_readseq_spec(c.meta['spec'], case=c)
 
 
 # ------------------------------------------------------------------ cases
@@ -375,6 +683,13 @@ def cases(rng, tier, seed):
         V = TS.TimeSeries(np.zeros(n), sampling_rate=r, time_unit=unit)
         out.append(Case('C15 mkrate %s %s %d' % (unit, f2x(r), n), canon_axis(axis_of(V)), 'ctor/rate', cmp=cmp_axis,
                         meta={'op': 'mkrate', 'unit': unit, 'rate': r, 'n': n}))
+    # --- long intervals, 2^40 .. 2^50 ps (18 min): the rate -> interval round trip, proved for all of them in ps..s
+    # (`rate_roundtrip50`); the rate is forwarded as the Frequency object, as the analyzers do
+    for i in range(30 * mult):
+        unit = UNITS[i % 3] if i % 5 else ['ns', 'ps'][i // 5 % 2]
+        dt = int(2.0 ** (rng.uniform(40, 50) if i % 3 else rng.uniform(49.9, 50.0)))
+        dt = min(dt, 2**50 - 1) | (i & 1)
+        out.append(rt_case(unit, dt))
     # --- analyzer outputs
     per = {'quick': 5, 'thorough': 40}[tier]
     for name, getter, kind, chain_fn, dims in OUTPUTS:
@@ -395,7 +710,8 @@ def cases(rng, tier, seed):
     for j in range({'quick': 3, 'thorough': 12}[tier]):
         for name, getter in FS_SITES:
             unit = UNITS[(j + FS_SITES.index((name, getter))) % 3]
-            sp = dict(unit=unit, iv=(BAD_IV[unit] + GOOD_IV[unit])[j % 4], t0=T0S[j % len(T0S)], seed=rng.randrange(10**6))
+            sp = dict(unit=unit, iv=(BAD_IV[unit] + GOOD_IV[unit])[j % 4], t0=T0S[j % len(T0S)], seed=rng.randrange(10**6),
+                      n=SPEC_LENS[(j + FS_SITES.index((name, getter))) % len(SPEC_LENS)])
             out.append(fs_case(name, getter, sp))
             if (name, getter) in OVERRIDABLE:
                 out.append(fs_case(name, getter, sp, user_fs=rng.choice([123.0, 7.5, 1000.0])))
@@ -405,14 +721,41 @@ def cases(rng, tier, seed):
         C = rng.choice([1, 2, 3])
         unit = rng.choice(UNITS)
         iv = rng.choice(BAD_IV[unit] + GOOD_IV[unit])
-        specs = [dict(unit=unit if rng.random() < 0.8 else rng.choice(UNITS), iv=iv, t0=rng.choice(T0S + [0.0]), shape=[C, rng.randint(1, 6)],
+        specs = [dict(unit=unit if rng.random() < 0.8 else rng.choice(UNITS), iv=iv, t0=rng.choice(T0S + [0.0]), shape=[C, rng.choice([1, 2, 3, 4, 5, 6, 7, 11, 13, 14, 17]) if i % 3 else rng.randint(1, 6)],
                       seed=rng.randrange(10**6)) for _ in range(k)]
         out.append(concat_case(specs))
     # --- file reading
     for i in range({'quick': 24, 'thorough': 200}[tier]):
         spec = gen_nifti_spec(rng, i)
         out += nifti_cases(spec)
+    # --- histories of reads / in-place modifications on the same files
+    for i in range({'quick': 12, 'thorough': 120}[tier]):
+        out.append(readseq_case(gen_readseq_spec(rng, i)))
     return out
+
+
+def rt_pair(unit, dt):
+    TS = nt()
+    t = TS.TimeArray(np.int64(dt), time_unit='ps')
+    t.convert_unit(unit)
+    T = TS.TimeSeries(np.zeros(3), sampling_interval=t, time_unit=unit)
+    return T, TS.TimeSeries(np.zeros(3), sampling_rate=T.sampling_rate, time_unit=unit)
+
+
+def rt_case(unit, dt):
+    T, V = rt_pair(unit, dt)
+    return Case('C15 mkrate %s %s 3' % (unit, f2x(float(T.sampling_rate))), canon_axis(axis_of(V)), 'ctor/rate-roundtrip', cmp=cmp_axis,
+                meta={'op': 'rt', 'unit': unit, 'dt': dt})
+
+
+def judge_rt(c):
+    m = c.meta
+    T, V = rt_pair(m['unit'], m['dt'])
+    a, b = axis_of(T), axis_of(V)
+    if a['dt'] != m['dt'] or b['dt'] != m['dt']:
+        return [Failure('ctor/rate-roundtrip/value', 'interval %d ps (unit %s): series built on it has interval %d ps, series built from ITS sampling_rate has %d ps' % (
+            m['dt'], m['unit'], a['dt'], b['dt']), {'meta': m}, case=c)]
+    return []
 
 
 def concat_case(specs):
@@ -452,8 +795,18 @@ def nifti_cases(spec):
     series = [] if R is None else (list(R) if isinstance(R, (list, tuple)) else [R])
     o = spec['opt']
     chain_keys = ['_tseries_from_nifti_helper.0']
-    if 'filter' in o:
-        chain_keys.append('FilterAnalyzer.filtered_%s.0' % o.split('-')[1])
+    fm = opt_filter(o)
+    # the reader's own validation of `normalize` / `filter['method']` (one case per spec; the two refusals are specs)
+    out.append(Case('C15 readeropts %s %s' % (opt_normalize(o) or '-', fm or '-'), err or 'ok', 'time_series_from_file/options',
+                    meta={'op': 'nifti-options', 'spec': spec}, nontrivial=True))
+    if o.startswith('bad-'):
+        return out
+    if fm in ('fourier', 'boxcar'):
+        chain_keys.append('FilterAnalyzer.filtered_%s.0' % fm)
+    elif fm == 'fir':
+        chain_keys += ['FilterAnalyzer.fir.0', 'FilterAnalyzer.filtfilt.0', 'FilterAnalyzer.filtfilt.0']
+    elif fm == 'iir':
+        chain_keys.append('FilterAnalyzer.filtfilt.0')
     if 'percent' in o:
         chain_keys.append('NormalizationAnalyzer.percent_change.0')
     if 'zscore' in o:
@@ -549,7 +902,7 @@ def direct_data(name, getter, T, spec, Fs):
             return tsa.boxcar_filter(np.copy(d), lb=lb / Fs, ub=ub / Fs, n_iterations=2)
         if getter == 'filtered_fourier':
             n = d.shape[-1]
-            freqs = np.linspace(0, Fs / 2, n // 2 + 1)
+            freqs = np.arange(n // 2 + 1) * Fs / n          # DFT bin frequencies j*Fs/n (odd n: the last bin is below Fs/2)
             p = np.fft.fft(d)
             idx = np.hstack([np.where(freqs < lb)[0], np.where(freqs > ub)[0]])
             dc = np.copy(p[..., 0])
@@ -791,7 +1144,8 @@ def hist_input(spec, name, variant=0):
     """input of the history experiments: 3 x 96 (1-d for the wavelet), strictly positive for the normaliser;
     variant 1 = ANOTHER series (half the interval, another unit, other data, other start)"""
     sp = dict(spec)
-    sp['shape'] = [96] if name == 'MorletWaveletAnalyzer' else [3, 96]
+    n = sp.get('n', 96)
+    sp['shape'] = [n] if name == 'MorletWaveletAnalyzer' else [3, n]
     sp['pos'] = name == 'NormalizationAnalyzer'
     T = mk_input(sp)
     if variant == 0:
@@ -994,7 +1348,37 @@ def history_experiments(spec, name, pair_budget, rng):
             elif not same_snap(snap(v), fresh[g]):
                 fail('retarget/%s/%s/value' % (name, g), '%s: %s read first after set_input(new series) differs from a fresh analyzer on the new series '
                      '(Fs = 10^12/interval_ps = %r Hz)' % (name, g, Fs))
+    # (4) hidden state across OBJECTS: a result handed out by one analyzer is overwritten by the caller, the input's
+    #     data are modified in place, then a NEW analyzer is built on the SAME input object: its output must equal that
+    #     of an analyzer on a brand-new series holding the same (current) data
+    for g in good:
+        T = hist_input(spec, name)
+        st, v = read(hist_analyzer(name, T, fs_new), g)
+        if st == 'ok':
+            scribble(v)
+        T.data *= 1.5
+        T.data += 0.25
+        Tn = nt().TimeSeries(np.array(T.data, copy=True), sampling_interval=T.sampling_interval, time_unit=T.time_unit, t0=T.t0)
+        s1, v1 = read(hist_analyzer(name, Tn, fs_new), g)
+        s2, v2 = read(hist_analyzer(name, T, fs_new), g)
+        if s1 == 'ok' and (s2 != 'ok' or not same_snap(snap(v2), snap(v1))):
+            fail('reuse-input/%s/%s/value' % (name, g), '%s: %s of a NEW analyzer on the same input object, after an earlier result was overwritten and '
+                 'input.data modified in place, differs from an analyzer on a new series with the same data' % (name, g))
     return fails, len(pairs), len(good)
+
+
+def scribble(v):
+    """the caller overwrites what it was handed (arrays inside series / tuples / dicts), in place"""
+    if isinstance(v, nt().TimeSeries):
+        return scribble(v.data)
+    if isinstance(v, (tuple, list)):
+        for x in v:
+            scribble(x)
+    elif isinstance(v, dict):
+        for x in v.values():
+            scribble(x)
+    elif isinstance(v, np.ndarray) and v.dtype.kind in 'fc' and v.flags.writeable:
+        v[...] = -7.0
 
 
 
@@ -1133,13 +1517,35 @@ def judge_nifti(c):
         fail('n', 'length %d, volumes in the files %d' % (a['n'], sum(spec['lens'])))
     if a['t0'] != 0:
         fail('t0', 'does not start at 0')
-    if 'filter' not in o:
-        want = expected_file_data(spec, files)[r]
-        got = np.asarray(S.data, dtype=float)
-        exact = o == 'plain'
-        if got.shape != want.shape or not ((got == want).all() if exact else close(got, want, 1e-9)):
-            fail('data', 'data differ from plain indexing of the volume at the requested coordinates')
+    want = expected_file_data(spec, files)[r]
+    got = np.asarray(S.data, dtype=float)
+    exact = o == 'plain'
+    if got.shape != want.shape or not ((got == want).all() if exact else close(got, want, 1e-9)):
+        fail('data', 'data differ from plain indexing of the volume at the requested coordinates' + (
+            '' if exact else ' followed by the documented options (filter = FilterAnalyzer output on the raw voxel series, normalisation, average)'))
+    if spec.get('verbose') and _LAST['said'] != len(files):
+        fail('verbose', 'verbose=True reported %r files, %d were read' % (_LAST['said'], len(files)))
     return fails
+
+
+def judge_nifti_options(c):
+    """unknown `normalize` / `filter['method']` values are refused with ValueError (never silently ignored); the
+    documented ones are accepted"""
+    spec = c.meta['spec']
+    o = spec['opt']
+    try:
+        read_nifti(spec)
+        res = 'ok'
+    except ValueError:
+        res = 'err ValueError'
+    except Exception as e:  # noqa
+        res = 'err ' + common.err_kind(e)
+    want = 'err ValueError' if o.startswith('bad-') else 'ok'
+    if res != want:
+        return [Failure('time_series_from_file/options/' + ('refusal' if o.startswith('bad-') else 'accepted'),
+                        'time_series_from_file(normalize=%r, filter method=%r): %s, expected %s' % (opt_normalize(o), opt_filter(o), res, want),
+                        {'meta': c.meta}, case=c)]
+    return []
 
 
 def judge_ctor(c):
@@ -1181,7 +1587,7 @@ def judge_voxels(c):
 
 
 JUDGES = {'fs': judge_fs, 'output': judge_output, 'concat': judge_concat, 'nifti': judge_nifti, 'mk': judge_ctor, 'mkT': judge_ctor, 'rate': judge_ctor,
-          'voxels': judge_voxels}
+          'voxels': judge_voxels, 'readseq': judge_readseq, 'rt': judge_rt, 'nifti-options': judge_nifti_options}
 
 
 def oracle(rng, tier, seed, focus, cases=None):
@@ -1196,7 +1602,8 @@ def oracle(rng, tier, seed, focus, cases=None):
     for i in range({'quick': 9, 'thorough': 60}[tier]):
         unit = UNITS[i % 3]
         iv = (BAD_IV[unit] + GOOD_IV[unit])[i // 3 % 5] if i < 15 else round(rng.uniform(0.01, 50.0), 3)
-        spec = dict(unit=unit, iv=iv, t0=T0S[i % len(T0S)], shape=[3, 96] if i % 4 else [96], seed=rng.randrange(10**6))
+        nlen = SPEC_LENS[(i + seed) % len(SPEC_LENS)]
+        spec = dict(unit=unit, iv=iv, t0=T0S[i % len(T0S)], shape=[3, nlen] if i % 4 else [nlen], seed=rng.randrange(10**6))
         fails += spectral_experiments(spec)
         k += 1
     npairs = nout = 0
@@ -1206,13 +1613,19 @@ def oracle(rng, tier, seed, focus, cases=None):
         for name in ALL_ANALYZERS:
             hs2 = dict(hs, unit=UNITS[(seed + j + ALL_ANALYZERS.index(name)) % 3])
             hs2['iv'] = GOOD_IV[hs2['unit']][(j + ALL_ANALYZERS.index(name)) % 3]
+            hs2['n'] = SPEC_LENS[(seed + j + ALL_ANALYZERS.index(name)) % len(SPEC_LENS)]
             fl, a, b = history_experiments(hs2, name, {'quick': 150, 'thorough': 10**6}[tier], rng)
             fails += fl
             npairs += a
             nout += b
+    # histories of reads with normalisation / averaging / ROI lists after in-place modifications (oracle only)
+    nseq = 0
+    for i in range({'quick': 12, 'thorough': 120}[tier]):
+        fails += judge_readseq_spec(gen_readseq_spec(rng, i, options=True))
+        nseq += 1
     for f in fails:
         f.replay['key'] = f.key
-    return fails, {'judged_cases': n, 'spectral_inputs': k, 'history_pairs': npairs, 'history_outputs': nout, 'failed': len(fails), 'focus': len(focus)}
+    return fails, {'judged_cases': n, 'read_histories': nseq, 'spectral_inputs': k, 'history_pairs': npairs, 'history_outputs': nout, 'failed': len(fails), 'focus': len(focus)}
 
 
 def replay(d):
@@ -1221,6 +1634,8 @@ def replay(d):
     c = Case('', '', '', meta=m)
     if op == 'spectral':
         fs = spectral_experiments(m['spec'])
+    elif op == 'readseq':
+        fs = judge_readseq_spec(m['spec'])
     elif op == 'history':
         fs = history_experiments(m['spec'], m['name'], 10**6, common.make_rng(PID, 0, 'replay'))[0]
     else:
